@@ -200,19 +200,34 @@ BINOPS = {'Add', 'Sub', 'Mul', 'Div', 'Rem', 'BitXor', 'BitAnd', 'BitOr', 'Shl',
 UNOPS = {'Not', 'Neg', 'PtrMetadata'}
 
 
+_CHARLIT = re.compile(r"'(\\.|\\u\{[0-9a-fA-F]+\}|[^\\'])'")
+
+
 def open_of(s):
-    """index of the bracket matching the last char of s"""
-    depth = 0
-    i = len(s) - 1
-    while i >= 0:
+    """index of the bracket matching the last char of s (forward scan, aware of string and char literals)"""
+    stack = []
+    i = 0; n = len(s)
+    while i < n:
         c = s[i]
-        if c in ')]}':
-            depth += 1
+        if c == '"':
+            i += 1
+            while i < n and s[i] != '"':
+                if s[i] == '\\':
+                    i += 1
+                i += 1
+        elif c == "'":
+            m = _CHARLIT.match(s, i)
+            if m:
+                i = m.end() - 1
         elif c in '([{':
-            depth -= 1
-            if depth == 0:
-                return i
-        i -= 1
+            stack.append(i)
+        elif c in ')]}':
+            if not stack:
+                raise ValueError('unbalanced ' + s)
+            o = stack.pop()
+            if i == n - 1:
+                return o
+        i += 1
     raise ValueError('unbalanced ' + s)
 
 
@@ -366,18 +381,7 @@ def parse_term(s):
     # function path then (args): find the last top-level '(...)' group
     callpart = callpart.strip()
     assert callpart.endswith(')'), t
-    # walk back to matching '('
-    depth = 0
-    i = len(callpart) - 1
-    while i >= 0:
-        c = callpart[i]
-        if c in ')]}':
-            depth += 1
-        elif c in '([{':
-            depth -= 1
-            if depth == 0:
-                break
-        i -= 1
+    i = open_of(callpart)
     func = callpart[:i].strip()
     args = [parse_operand(a) for a in split_top(callpart[i + 1:-1])]
     ret = tgt.get('return')
